@@ -14,8 +14,8 @@ PROP = {
     ],
     "runs": LOOP_RUNS,
     "keys": ["nesting-deeper-than-limit", "dispatch-depth-not-restored", "regular-file-not-deferrable",
-             "operation-deferred-at-limit-never-completed"],
-    "secondary_keys": ["nesting-deeper-than-limit", "operation-deferred-at-limit-never-completed"],
+             "operation-deferred-at-limit-never-completed", "completed-inline-at-the-dispatch-limit"],
+    "secondary_keys": ["nesting-deeper-than-limit", "operation-deferred-at-limit-never-completed", "completed-inline-at-the-dispatch-limit"],
     "rule": LOOP_RULE,
     "trusted_base": LOOP_TB,
     "assumptions": [
